@@ -2,6 +2,7 @@ package main
 
 import (
 	"fmt"
+	"go/token"
 	"go/types"
 	"strings"
 
@@ -383,7 +384,7 @@ func (e *Engine) model(st *State, name string, fn *ssa.Function, args []Val, rt 
 			return one(rd)
 		}
 		return nil, false
-	case "(*bytes.Reader).ReadByte", "(*bytes.Reader).Read", "(*bytes.Reader).Len", "(*bufio.Reader).ReadByte", "(*bufio.Reader).Read":
+	case "(*bytes.Reader).ReadByte", "(*bytes.Reader).Read", "(*bytes.Reader).Len", "(*bytes.Reader).Seek", "(*bufio.Reader).ReadByte", "(*bufio.Reader).Read":
 		if rd, ok := args[0].(*ReaderVal); ok {
 			m := name[strings.LastIndex(name, ".")+1:]
 			return e.readerMethod(st, rd, m, args[1:], rt, in)
@@ -486,6 +487,20 @@ func (e *Engine) readerMethod(st *State, rd *ReaderVal, name string, args []Val,
 	case "Len":
 		if l := e.streamLen(rd.S); l != nil {
 			return []Outcome{valueOutcome(st, l.Sub(e.streamPos(st, rd.S)))}, true
+		}
+	case "Seek":
+		// Seek(off, io.SeekCurrent): the position moves by off (bytes.Reader contract)
+		if len(args) == 2 {
+			off, ok1 := args[0].(*Form)
+			wh, ok2 := args[1].(*Form)
+			if ok1 && ok2 {
+				if w, isC := wh.ConstInt(); isC && w == 1 {
+					np := e.streamPos(st, rd.S).Add(off)
+					st.pos[rd.S] = np
+					st.addEvent(Event{Kind: "seek", Fn: "Seek", Args: []Val{off}, Pos: in.Pos()})
+					return []Outcome{valueOutcome(st, Tuple{np, &ErrVal{IsNil: true}})}, true
+				}
+			}
 		}
 	}
 	return nil, false
@@ -603,6 +618,7 @@ func (e *Engine) summariseLoop(st *State, fr *frame, b *ssa.BasicBlock, ifi *ssa
 		app *ssa.Call
 	}
 	var accs []accPhi
+	var carried *ssa.Phi
 	for _, in := range b.Instrs {
 		phi, ok := in.(*ssa.Phi)
 		if !ok {
@@ -632,25 +648,103 @@ func (e *Engine) summariseLoop(st *State, fr *frame, b *ssa.BasicBlock, ifi *ssa
 			}
 		}
 		if !isAcc {
-			return fail(fmt.Sprintf("the loop carries the variable %s from one iteration to the next in a way that is neither a counter, a running offset nor an append-accumulator", phi.Comment))
+			carried = phi
 		}
 	}
+	if carried != nil && iv != nil {
+		return fail(fmt.Sprintf("the loop carries the variable %s from one iteration to the next in a way that is neither a counter, a running offset nor an append-accumulator", carried.Comment))
+	}
+	// a slice consumed from the front: s = [s0, s[c:]] tested by len(s) >= c
+	// (or > c−1): iteration t sees s0[c·t:], there are len(s0)/c iterations
+	var eat *ssa.Phi
+	var eatC int64
 	if iv == nil {
+		if cmp, ok := ifi.Cond.(*ssa.BinOp); ok {
+			if ph, ok := lenOf(cmp.X).(*ssa.Phi); ok && ph.Block() == b && len(ph.Edges) == 2 {
+				if _, isSl := ph.Type().Underlying().(*types.Slice); isSl {
+					for _, ed := range ph.Edges {
+						if sl, ok := ed.(*ssa.Slice); ok && sl.X == ssa.Value(ph) && sl.High == nil && sl.Max == nil && sl.Low != nil {
+							if c, isC := constInt(sl.Low); isC && c > 0 {
+								if m, isM := constInt(cmp.Y); isM && ((cmp.Op == token.GEQ && m == c) || (cmp.Op == token.GTR && m == c-1)) {
+									eat, eatC = ph, c
+								}
+							}
+						}
+					}
+				}
+			}
+		}
+		if eat != nil {
+			// the accumulator scan above rejected the slice phi as "carried": redo the
+			// classification without it
+			secondary, accs = nil, nil
+			for _, in := range b.Instrs {
+				phi, ok := in.(*ssa.Phi)
+				if !ok {
+					break
+				}
+				if phi == eat {
+					continue
+				}
+				if aff := affinePhi(phi); aff != nil {
+					secondary = append(secondary, aff)
+					continue
+				}
+				isAcc := false
+				if len(phi.Edges) == 2 {
+					for _, ed := range phi.Edges {
+						if call, ok := ed.(*ssa.Call); ok {
+							if bi, ok := call.Call.Value.(*ssa.Builtin); ok && bi.Name() == "append" && len(call.Call.Args) > 0 && call.Call.Args[0] == ssa.Value(phi) {
+								accs = append(accs, accPhi{phi, call})
+								isAcc = true
+							}
+						}
+					}
+				}
+				if !isAcc {
+					return fail(fmt.Sprintf("the loop carries the variable %s from one iteration to the next in a way that is neither a counter, a running offset nor an append-accumulator", phi.Comment))
+				}
+			}
+		}
+	}
+	if iv == nil && eat == nil {
 		return fail("the loop condition does not test a counter of the form i = i ± step")
 	}
-	stepV, okS := e.val(st, fr, iv.Step).(*Form)
-	if !okS {
-		return fail("non-numeric step")
+	var eat0 *SliceVal
+	if eat != nil {
+		eat0, _ = fr.env[eat].(*SliceVal)
+		if eat0 == nil || eat0.Len == nil {
+			return fail("the consumed slice is not a known slice value")
+		}
+		// a virtual counter t = 0, 1, … < len(s0)/c
+		iv = &IndVar{Op: token.LSS}
+	}
+	var stepV *Form
+	if eat != nil {
+		stepV = formInt(1)
+	} else {
+		sv, okS := e.val(st, fr, iv.Step).(*Form)
+		if !okS {
+			return fail("non-numeric step")
+		}
+		stepV = sv
 	}
 	if iv.Down {
 		stepV = stepV.Neg()
 	}
 	sc, stepConst := stepV.ConstInt()
 	unitStep := stepConst && (sc == 1 || sc == -1)
-	initV, ok1 := fr.env[iv.Phi].(*Form) // value on first arrival = init
-	limit, ok2 := e.val(st, fr, iv.Limit).(*Form)
-	if !ok1 || !ok2 {
-		return fail("non-numeric loop bounds")
+	var initV, limit *Form
+	if eat != nil {
+		initV = formInt(0)
+		limit = e.A.App("idiv", types.Typ[types.Int], eat0.Len, formInt(eatC))
+	} else {
+		iv0, ok1 := fr.env[iv.Phi].(*Form) // value on first arrival = init
+		lim, ok2 := e.val(st, fr, iv.Limit).(*Form)
+		if !ok1 || !ok2 {
+			return fail("non-numeric loop bounds")
+		}
+		initV, limit = iv0, lim
 	}
 	first := initV // first counter value tested / seen by the body
 	if iv.PreInc {
@@ -678,7 +772,11 @@ func (e *Engine) summariseLoop(st *State, fr *frame, b *ssa.BasicBlock, ifi *ssa
 	}
 
 	e.nextCell++
-	k := e.A.Var(fmt.Sprintf("iter#%d", e.nextCell), iv.Phi.Type())
+	var kType types.Type = types.Typ[types.Int]
+	if iv.Phi != nil {
+		kType = iv.Phi.Type()
+	}
+	k := e.A.Var(fmt.Sprintf("iter#%d", e.nextCell), kType)
 	kName, _ := k.SingleAtom()
 	// iteration number t = (k − first)/step (unit steps: (k − first)·step)
 	var tIter *Form
@@ -716,6 +814,7 @@ func (e *Engine) summariseLoop(st *State, fr *frame, b *ssa.BasicBlock, ifi *ssa
 	nEv := len(st.events)
 	var back *Outcome
 	var backFr *frame
+	var backs []Outcome // all paths of the generic iteration that reach the back edge
 	var exits []Outcome
 	runBody := func(startPos map[*Stream]*Form) ([]Outcome, bool) {
 		stB := st.clone()
@@ -731,10 +830,15 @@ func (e *Engine) summariseLoop(st *State, fr *frame, b *ssa.BasicBlock, ifi *ssa
 			}
 		}
 		frB := fr.clone()
-		if iv.PreInc {
+		switch {
+		case eat != nil:
+			adv := k.Mul(formInt(eatC))
+			frB.env[eat] = &SliceVal{Arr: eat0.Arr, Base: eat0.Base, Lo: eat0.Lo.Add(adv), Len: eat0.Len.Sub(adv), Elem: eat0.Elem}
+			stB.conds = append(stB.conds, &BoolVal{Op: ">=", A: eat0.Len.Sub(adv), B: formInt(eatC)})
+		case iv.PreInc:
 			frB.env[iv.Phi] = k.Sub(stepV)
 			frB.env[iv.Next] = k
-		} else {
+		default:
 			frB.env[iv.Phi] = k
 		}
 		for ph, v := range secVals {
@@ -746,12 +850,13 @@ func (e *Engine) summariseLoop(st *State, fr *frame, b *ssa.BasicBlock, ifi *ssa
 		frB.stopAt = b
 		frB.forks[b] = 0
 		outs := e.exec(stB, frB, b.Succs[0], b, 0, depth)
-		back, exits = nil, nil
+		back, exits, backs = nil, nil, nil
 		for i := range outs {
 			switch outs[i].Kind {
 			case "loopback":
+				backs = append(backs, outs[i])
 				if back != nil {
-					return fail("the loop body reaches the back edge on more than one path")
+					continue
 				}
 				back = &outs[i]
 				backFr = outs[i].Fr
@@ -793,28 +898,66 @@ func (e *Engine) summariseLoop(st *State, fr *frame, b *ssa.BasicBlock, ifi *ssa
 		deltas[s] = d
 		shifted[s] = b0.Add(tIter.Mul(d))
 	}
+	// every path of the iteration must consume the same amount
+	for _, bk := range backs[1:] {
+		for s, p := range bk.St.pos {
+			b0, ok := before[s]
+			if !ok {
+				b0 = formInt(0)
+			}
+			d := p.Sub(b0)
+			want, has := deltas[s]
+			if !has {
+				want = formInt(0)
+			}
+			if !d.Equal(want) {
+				return fail("the number of bytes consumed per iteration depends on the path taken through the body")
+			}
+		}
+	}
 	if len(shifted) > 0 {
 		if _, ok := runBody(shifted); !ok {
 			return nil, false
 		}
-		for s, start := range shifted {
-			d1 := back.St.pos[s].Sub(start)
-			if !d1.Equal(deltas[s]) {
-				return fail("the number of bytes consumed per iteration depends on the position")
+		for _, bk := range backs {
+			for s, start := range shifted {
+				d1 := bk.St.pos[s].Sub(start)
+				if !d1.Equal(deltas[s]) {
+					return fail("the number of bytes consumed per iteration depends on the position")
+				}
 			}
 		}
 	}
 	// the iteration must not modify variables that outlive it
-	for c, kBefore := range memBefore {
-		if v, ok := back.St.mem[c]; !ok || valKey(v) != kBefore {
-			return fail("the loop body modifies variable " + c.Name + " that outlives the iteration (shared between iterations / workers)")
+	for _, bk := range backs {
+		for c, kBefore := range memBefore {
+			if v, ok := bk.St.mem[c]; !ok || valKey(v) != kBefore {
+				return fail("the loop body modifies variable " + c.Name + " that outlives the iteration (shared between iterations / workers)")
+			}
 		}
 	}
 	// secondary counters must really advance by their step (the latch value is phi ± step by construction)
 	var facts []Event
-	for _, ev := range back.St.events[nEv:] {
+	var bodyEvents []Event
+	for _, bk := range backs {
+		bodyEvents = append(bodyEvents, bk.St.events[nEv:]...)
+	}
+	if len(backs) > 1 && len(accs) > 0 {
+		for _, a := range accs {
+			k0 := valKey(backs[0].Fr.env[a.app])
+			for _, bk := range backs[1:] {
+				if bk.Fr == nil || valKey(bk.Fr.env[a.app]) != k0 {
+					return fail("what is appended per iteration depends on the path taken through the body")
+				}
+			}
+		}
+	}
+	for _, ev := range bodyEvents {
 		switch ev.Kind {
-		case "readfail", "make", "append":
+		case "readfail", "make", "append", "seek":
+		case "bounds":
+			// carried out of the loop with the conditions of the generic iteration
+			facts = append(facts, ev)
 		case "store":
 			ptr, _ := ev.Recv.(*Ptr)
 			if ptr == nil || ptr.SymIdx == nil {
@@ -835,7 +978,14 @@ func (e *Engine) summariseLoop(st *State, fr *frame, b *ssa.BasicBlock, ifi *ssa
 		if backFr != nil {
 			latch = backFr.env[a.app]
 		}
-		facts = append(facts, Event{Kind: "loop-append", Fn: "loop-append", Recv: accInit[a.phi], Args: []Val{k, first, limit, latch}, Pos: a.app.Pos()})
+		// the appended elements, when they are an explicit list (append(s, x, y))
+		var elems Val
+		if lsv, ok := latch.(*SliceVal); ok && lsv.Base != nil && lsv.Base.Fn == "append" && len(lsv.Base.Args) == 2 {
+			if es, ok := e.sliceElems(back.St, lsv.Base.Args[1]); ok {
+				elems = Tuple(es)
+			}
+		}
+		facts = append(facts, Event{Kind: "loop-append", Fn: "loop-append", Recv: accInit[a.phi], Args: []Val{k, first, limit, latch, elems}, Pos: a.app.Pos()})
 	}
 	// after the loop
 	for s, d := range deltas {
@@ -859,10 +1009,14 @@ func (e *Engine) summariseLoop(st *State, fr *frame, b *ssa.BasicBlock, ifi *ssa
 			}
 		}
 	}
-	if iv.PreInc {
+	switch {
+	case eat != nil:
+		adv := limit.Mul(formInt(eatC))
+		fr.env[eat] = &SliceVal{Arr: eat0.Arr, Base: eat0.Base, Lo: eat0.Lo.Add(adv), Len: eat0.Len.Sub(adv), Elem: eat0.Elem}
+	case iv.PreInc:
 		fr.env[iv.Phi] = limit.Sub(stepV)
 		fr.env[iv.Next] = limit
-	} else {
+	default:
 		fr.env[iv.Phi] = limit
 	}
 	for ph, v0 := range secVals {
